@@ -306,9 +306,27 @@ def arm_reentrant(rec):
         ns = {"Float": Float, "N": N, "jaxtyped": jaxtyped, "tc": tc}
         real.exec_src('@jaxtyped(typechecker=tc)\ndef helper(x: Float[N, "n"], y: Float[N, "n"]) -> Float[N, "n"]:\n    return x\n', ns)
         helper = ns["helper"]
+        ns["np"] = np
+        # two levels: a decorated function that makes a (well-typed) decorated call itself and THEN violates its own
+        # return annotation / checks a wrong-sized array by hand - the inner call's exit must not disturb the outer call
+        real.exec_src(
+            '@jaxtyped(typechecker=tc)\ndef outer_bad(x: Float[N, "n"]) -> Float[N, "n"]:\n    helper(x, x)\n    return np.zeros((x.shape[0] + 1,), dtype="float32")\n'
+            '@jaxtyped(typechecker=tc)\ndef outer_manual(x: Float[N, "n"]):\n    helper(x, x)\n    return (isinstance(np.zeros((x.shape[0] + 1,), dtype="float32"), Float[N, "n"]), isinstance(np.zeros(x.shape, dtype="int32"), Float[N, "n"]), isinstance(x, Float[N, "n"]))\n',
+            ns,
+        )
+        outer_bad, outer_manual = ns["outer_bad"], ns["outer_manual"]
 
         def probe_calls():
             out = []
+            try:
+                outer_bad(real.np_array((2,)))
+                out.append(("outer-bad-return", "accepted"))
+            except Exception as e:  # noqa
+                out.append(("outer-bad-return", call_name(e)))
+            try:
+                out.append(("outer-manual", outer_manual(real.np_array((2,)))))
+            except Exception as e:  # noqa
+                out.append(("outer-manual", call_name(e)))
             for x, y in ((real.np_array((2,)), real.np_array((2,))), (real.np_array((2,)), real.np_array((3,))), (real.np_array((2,)), real.np_array((2,), "int32")), (real.np_array((2, 2)), real.np_array((2,)))):
                 try:
                     helper(x, y)
@@ -328,6 +346,8 @@ def arm_reentrant(rec):
 
         direct = probe_calls()
         seen = {}
+        if direct[:2] != [("outer-bad-return", "TypeCheckError"), ("outer-manual", (False, False, True))]:
+            rec.violation("reentrant", {"checker": cname, "where": "direct"}, f"two-level decorated calls made directly: {direct[:2]}", mechanism="two-level-call-direct-wrong")
 
         def recorder(where):
             def p():
